@@ -331,7 +331,7 @@ def config_st(draw, tier):
     referenced = sorted({it["rec"][side]["n"] for sec in sections for it in sec["acl"]["items"] if it["t"] == "ace"
                          for side in ("src", "dst") if it["rec"][side]["k"] == "group"})
     gnames = [n for n in referenced if draw(st.sampled_from([True, True, True, False]))]
-    gnames += [n for n in draw(st.lists(st.sampled_from(["G1", "G2", "UNUSED"]), max_size=2, unique=True)) if n not in gnames]
+    gnames += [n for n in draw(st.lists(st.sampled_from(["G1", "G2", "UNUSED", "g1", "net-a", "G.3", "Hosts", "web"]), max_size=2, unique=True)) if n not in gnames]
     for gname in gnames:
         members = []
         for _ in range(draw(st.integers(1, 4))):
